@@ -6,6 +6,7 @@ package zzverifw
 import (
 	"encoding/json"
 	"fmt"
+	"github.com/Syuparn/pangaea/object"
 	"os"
 	"strings"
 	"testing"
@@ -68,6 +69,11 @@ func TestVerifReplay(t *testing.T) {
 		}
 		res := "OK"
 		for k := 0; k < n; k++ {
+			// the engine rolls the whole heap back between paths; natively the entries of one file run
+			// in one process, so the one piece of process-wide state an earlier entry can have written
+			// (the stack trace of the shared NotImplementedErr, known finding C19/shared-error-through-
+			// values) is reset before each entry
+			object.BuiltInNotImplemented.StackTrace = ""
 			res = runOne(e)
 			if res != "OK" {
 				break
